@@ -309,6 +309,24 @@ func fill(p *pair, x, y int) error {
 	return nil
 }
 
+// --- an accessor used where only an expression can stand
+type bucket struct {
+	name string
+	db   *store
+}
+type record struct{ puts map[string]int }
+type store struct{ data map[string]record }
+
+func (b bucket) rec() record { return b.db.data[b.name] }
+
+func Count(b bucket) int {
+	n := 0
+	for range b.rec().puts {
+		n++
+	}
+	return n
+}
+
 func Fill(x, y int) int {
 	var p pair
 	if err := fill(&p, x, y); err != nil {
@@ -700,5 +718,14 @@ func TestTableInHelperWritesThroughToLocal(t *testing.T) {
 	// pointer are stores into the local's fields
 	if strings.Contains(out, "range") || strings.Contains(out, "dest") {
 		t.Errorf("table not unrolled / pointer rows not resolved:\n%s", out)
+	}
+}
+
+func TestAccessorIsSubstitutedInExpressions(t *testing.T) {
+	p := loadTest(t)
+	v := p.Expand(fn(t, p, "Count"), ExpandOpt{Key: "t", Stop: leaf})
+	out := render(t, v.Body)
+	if strings.Contains(out, "rec()") || !strings.Contains(out, "b.db.data[b.name]") {
+		t.Errorf("accessor call left in the range operand:\n%s", out)
 	}
 }
